@@ -367,13 +367,13 @@ func (dq *Deque[T]) addAfter(value T, after *element[T]) error {
 	it.prev.next = it
 	it.next.prev = it
 
-	if after.isRoot() {
-		dq.nfront.Signal()
-	}
-	if after.prev.isRoot() {
-		dq.nback.Signal()
-	}
-	dq.updates.Signal()
+	// an item is available at both ends of a deque: wake a
+	// consumer blocked at either of them. (after.prev was read
+	// after the splice and is never the root on an empty deque, so
+	// consumers waiting at the back slept through pushes.)
+	dq.nfront.Signal()
+	dq.nback.Signal()
+	dq.updates.Broadcast()
 	return nil
 }
 
